@@ -36,6 +36,17 @@ class Leaf:
 
 
 @dataclasses.dataclass
+class Settings:          # with name_mapping(skip=...) its layout is EMPTY
+    debug: bool = False
+
+
+@dataclasses.dataclass
+class Point:
+    x: int
+    y: int
+
+
+@dataclasses.dataclass
 class Node:
     value: int
     leaf: Leaf
@@ -70,7 +81,20 @@ def _child(arg: dict) -> dict:  # noqa: C901, PLR0915
                 return [type(e).__name__, str(e)[:120] if not isinstance(e, LoadError) else ""]
             return ["err", flat(ex)]
 
-    def calls(retort):
+    program = arg.get("program", "same_model")
+
+    def make_retort():
+        if program == "two_models":
+            from adaptix import name_mapping  # noqa: PLC0415
+            # two models whose name layouts differ in every option a layout maker could remember between two calls
+            return Retort(recipe=[name_mapping(Point, as_list=True), name_mapping(Settings, skip=["debug"])])
+        return Retort()
+
+    def calls(retort, i=0):
+        if program == "two_models":
+            if i == 0:
+                return [lambda: retort.dump(Settings(), Settings), lambda: retort.load({}, Settings)]
+            return [lambda: retort.dump(Point(1, 2), Point), lambda: retort.load([1, 2], Point), lambda: retort.load({}, Point)]
         if what == "load":
             return [lambda: retort.load(datum, Node), lambda: retort.load(bad, Node)]
         return [lambda: retort.dump(obj, Node)]
@@ -79,13 +103,24 @@ def _child(arg: dict) -> dict:  # noqa: C901, PLR0915
         outs = [None, None]
 
         def body(sched, i):
-            outs[i] = [outcome(c) for c in calls(retort)]
+            outs[i] = [outcome(c) for c in calls(retort, i)]
 
         sched = Scheduler([body, body], schedule, traced_files=traced, no_yield=frozenset({"generate_idx"}),
                           grace=3.0, block_detect=0.2, max_steps=3_000_000, record=record, engine="monitoring")
         res = sched.run()
         return outs, res
 
+    if arg["mode"] == "profile_all":
+        # every distinct line the first thread executes (no cold / warm distinction): for state shared between requests through
+        # objects that outlive a request (providers of the class-level recipe ...)
+        _, res = race(make_retort(), {"prio": arg.get("prio", [0, 1]), "cp": []}, True)
+        first = arg.get("prio", [0, 1])[0]
+        seen, points = set(), []
+        for g, (idx, name, line) in enumerate(res.log):
+            if idx == first and (name, line) not in seen:
+                seen.add((name, line))
+                points.append([g, name, line])
+        return {"status": res.status, "points": points, "steps": len(res.log)}
     if arg["mode"] == "profile":
         _, res_cold = race(Retort(), {"prio": [0, 1], "cp": []}, True)
         _, res_warm = race(Retort(), {"prio": [0, 1], "cp": []}, True)
@@ -97,17 +132,19 @@ def _child(arg: dict) -> dict:  # noqa: C901, PLR0915
                 points.append([g, name, line])
         return {"status": res_cold.status, "points": points, "cold_steps": len(res_cold.log), "warm_steps": len(res_warm.log)}
 
-    retort = Retort()
-    outs, res = race(retort, {"prio": [0, 1], "cp": [int(arg["cp"])]}, False)
+    retort = make_retort()
+    outs, res = race(retort, {"prio": arg.get("prio", [0, 1]), "cp": [int(arg["cp"])]}, False)
     if res.status != "ok":
         return {"status": res.status, "ok": True, "inconclusive": True}
-    later = [outcome(c) for c in calls(retort)]
-    ref = [outcome(c) for c in calls(Retort())]
+    later = [[outcome(c) for c in calls(retort, i)] for i in (0, 1)]
+    fresh = make_retort()
+    ref = [[outcome(c) for c in calls(fresh, i)] for i in (0, 1)]
     where = [[sw.func, sw.line] for sw in res.switches][:2]
     diffs = []
-    for name, got in (("thread0", outs[0]), ("thread1", outs[1]), ("later", later)):
-        if got != ref:
-            diffs.append({"who": name, "got": got, "expected": ref})
+    for name, got, exp in (("thread0", outs[0], ref[0]), ("thread1", outs[1], ref[1]), ("later0", later[0], ref[0]),
+                           ("later1", later[1], ref[1])):
+        if got != exp:
+            diffs.append({"who": name, "got": got, "expected": exp})
     return {"status": "ok", "ok": not diffs, "diffs": diffs[:2], "switched": bool(res.switches), "where": where,
             "errors": [repr(e) for _, e in res.errors][:1]}
 
@@ -136,19 +173,29 @@ def run_child(arg: dict, timeout: float = 120.0) -> dict:
 
 
 def check_cold_case(ctx, case):
-    """case = {"cold": True, "what": "load"|"dump", "cp": k, "func": name, "line": n}"""
-    out = run_child({"mode": "run", "cp": case["cp"], "what": case["what"]})
+    """case = {"cold": True, "what": "load"|"dump", "cp": k, "func": name, "line": n[, "program": "two_models", "prio": [..]]}"""
+    out = run_child({"mode": "run", "cp": case["cp"], "what": case["what"], "program": case.get("program", "same_model"),
+                     "prio": case.get("prio", [0, 1])})
     status = out.get("status")
     if status != "ok" or out.get("inconclusive"):
         ctx.count(f"cold_inconclusive:{status}")
         return
-    ctx.case(["cold", case["what"], case["cp"]], bool(out.get("switched")),
-             sample={"cold": True, "what": case["what"], "preempted_at": [case.get("func"), case.get("line")]},
-             labels=["part:cold_process", f"cold:{case['what']}", *(["cold:switched"] if out.get("switched") else [])])
+    prog = case.get("program", "same_model")
+    ctx.case(["cold", prog, case["what"], case["cp"], case.get("prio")], bool(out.get("switched")),
+             sample={"cold": True, "program": prog, "what": case["what"], "preempted_at": [case.get("func"), case.get("line")]},
+             labels=["part:cold_process" if prog == "same_model" else "part:two_models_all_files", f"cold:{case['what']}",
+                     *(["cold:switched"] if out.get("switched") else [])])
     if not out["ok"]:
         d = out["diffs"][0]
         got = d["got"]
         exc = next((o[1][0] for o in got if o and o[0] == "err" and o not in d["expected"]), "value")
+        if prog == "two_models":
+            ctx.violation("two_models_race", (str(exc), d["who"].rstrip("01")), case,
+                          f"fresh interpreter, one shared retort, one thread dumps / loads Settings (empty layout), the other Point "
+                          f"(list layout); the first thread was parked at yield point {case['cp']} ({case.get('func')}:"
+                          f"{case.get('line')}) while the other ran all its calls: {d['who']} got {d['got']!r}, a single thread "
+                          f"gets {d['expected']!r}")
+            return
         ctx.violation("cold_first_use_race", (case["what"], str(exc), str(case.get("func"))), case,
                       f"fresh interpreter, two threads {case['what']} the same model for the first time in the process; thread 0 "
                       f"parked at yield point {case['cp']} ({case.get('func')}:{case.get('line')}) while thread 1 ran its whole "
@@ -174,6 +221,23 @@ def explore_cold(ctx, per_shard: int):
                 return
             g, name, line = points[i]
             check_cold_case(ctx, {"cold": True, "what": what, "cp": g, "func": name, "line": line})
+    # two DIFFERENT models on one retort, line events on every file: a sample of all distinct lines of the first thread
+    for prio in ([0, 1], [1, 0]):
+        prof = run_child({"mode": "profile_all", "program": "two_models", "prio": prio})
+        if prof.get("status") != "ok":
+            ctx.count("two_models_profile_failed")
+            continue
+        points = prof["points"]
+        ctx.count("two_models_distinct_lines", len(points) if ctx.shard == 0 else 0)
+        order = list(range(len(points)))
+        random.Random(ctx.base_seed * 7919 + prio[0]).shuffle(order)
+        n = max(1, per_shard // 2)
+        for i in order[ctx.shard * n:(ctx.shard + 1) * n]:
+            if ctx.out_of_time():
+                return
+            g, name, line = points[i]
+            check_cold_case(ctx, {"cold": True, "program": "two_models", "what": "both", "cp": g, "func": name, "line": line,
+                                  "prio": prio})
     ctx.note("cold-process part: every schedule in a fresh interpreter, line events on every file of the adaptix package; "
              "preemption points = lines executed only by the first (cold) creation of the process, a seed-dependent sample")
 
